@@ -1,5 +1,5 @@
 import TriompheModel.WM.OwnershipExamples
-import TriompheModel.WM.Consume
+import TriompheModel.WM.OwnershipConsume
 /-!
 # A `try_unwrap`-shaped run of the ownership semantics (non-vacuity of `Props/C09Programs.lean`)
 
@@ -43,8 +43,27 @@ theorem ex_not_destroyed : ¬ ∃ f k, exX.kind f = .destroy k := by
     (protocol_of_run exRun (fun x y => (x, y) ∈ exPairs) ex_po ex_sw (fun _ _ _ => ex_consistent.hb_trans)) ex_corw
     (viaBorn_of_run exRun (fun x y => (x, y) ∈ exPairs) ex_po ex_sw (fun _ _ _ => ex_consistent.hb_trans)) ex_consume hf
 
+/-- the same `Consume`, this time **from the program** (`consume_of_run`): the run never drops handle 0 and both RMWs of
+the run were issued before the gate's load -/
+theorem ex_consume_of_program : Consume exX (1 : EA) 0 .acquire (some 1) := by
+  have hops : exRun.final.ops = [Op.inc 1 0, Op.dec 1] := by decide +kernel
+  have hst : stamp exRun.final (1 : EA) = 2 := by decide +kernel
+  refine consume_of_run exRun (fun x y => (x, y) ∈ exPairs) ex_po ex_sw (fun _ _ _ => ex_consistent.hb_trans)
+    (l := (1 : EA)) rfl rfl (by decide +kernel) ?_ ?_
+  · intro m hm
+    have := lt_of_getElem? hm
+    rw [hops] at hm this
+    match m, this with
+    | 0, _ => simp at hm
+    | 1, _ => simp at hm
+  · intro i ch hi
+    have := lt_of_getElem? hi
+    rw [hops] at this
+    rw [hst]; exact this
+
 end ExUnwrap
 end Own
 end WM
 
 #print axioms WM.Own.ExUnwrap.ex_not_destroyed
+#print axioms WM.Own.ExUnwrap.ex_consume_of_program
